@@ -283,6 +283,12 @@ SITES = {
     ('C13', CR, 'compute_cardinalities'): [
         S('countedInSketch', 'unique_value', {'unique_value': ('v', STR)}, nth=1, type='Bool'),
     ],
+    # header / data-set description readers used by the streaming task
+    ('C08', 'outrank/core_utils.py', 'parse_csv_raw'): [],
+    ('C08', 'outrank/core_utils.py', 'get_dataset_info'): [],
+    ('C16', 'outrank/core_utils.py', 'parse_csv_raw'): [],
+    ('C16', 'outrank/core_utils.py', 'get_dataset_info'): [],
+    ('C13', 'outrank/core_utils.py', 'parse_csv_raw'): [],
     # ---- transformers keep rule (C12)
     ('C12', TR, 'FeatureTransformerGeneric.__init__'): [
         S('majSupport', '0.8'),
